@@ -1,6 +1,9 @@
 """C02 -- method instructions run once each, in source order.
 
-Domain : generated well-formed methods over Block / End block / End blocks, Watch, Alarm, Macro / Call macro,
+Domain : (blank/comment lines appear anywhere a user may type them: between a scope opener and its body, with their own
+         indentation -- empty lines, comments further left than the scope -- never deeper than the body they sit in;
+         1 in 10 methods with a macro contains "Block with a Watch that ends it + Call macro, then Call macro again")
+         generated well-formed methods over Block / End block / End blocks, Watch, Alarm, Macro / Call macro,
          Wait, thresholds (Base: s), Mark, Notify, UOD commands of varying duration (Quick, Slow: n, Set, OvA/OvB),
          Info, blank and comment lines (also trailing, at scope ends and at the end of the method), blocks without
          a terminator of their own (ended from a Watch in their body or never) -- no live edit, no Restart/Stop/Pause.
@@ -19,6 +22,11 @@ Oracle : history invariants over the global event order of one run (vp/harness/o
       registered;
   S4  a line starts only after its enclosing Block / Watch / Alarm activation / Call macro has started, a macro body
       line only while a call of that macro is in progress;
+  S6  an invocation that is over has started its lines: when a Call macro completes, an Alarm or Watch body ends
+      (scope end), every instruction line directly in that body has started during the invocation -- unless a block
+      ended during (or in the tick before) the invocation, which may cut it short, or calls of the macro overlap;
+      a Call macro that completes without ever getting a `started` state (and had no call in progress to join) is
+      judged the same way;
   S5  blank/comment lines after the last instruction of the method are never reported executed (= passed) by the
       method state at any tick end (being reported `started` for the one tick of their first visit is counted, not
       judged); follow-up on interrupt-free methods (one live edit at the end of the run): a `Mark: zz` appended below
@@ -111,6 +119,14 @@ def _classes(case, info, tr):
         cl.add("trailing-ws-at-method-end")
         if any(prog.byid[w].depth > 0 for w in prog.trailing_ws):
             cl.add("trailing-ws-in-open-scope")
+    for i, l in enumerate(prog.lines[:-1]):
+        nx = prog.lines[i + 1]
+        if l.kind in O.CONTAINERS and nx.kind in O.WS:
+            cl.add("ws-between-opener-and-body")
+            if l.depth >= 1 and (len(nx.text) - len(nx.text.lstrip(" ")) if nx.text.strip() else len(nx.text)) < 4 * l.depth:
+                cl.add("ws-left-of-a-nested-opener-before-its-body")
+    if any(l.kind in O.WS and (l.node or {}).get("wsi") is not None for l in prog.lines):
+        cl.add("ws-with-own-indentation")
     if info["inner_ws_passed"]:
         cl.add("inner-ws-passed")
     if info["cmd_succ_before_completion"]:
